@@ -20,7 +20,7 @@ func checkC16(c *Ctx) error {
 	c.Rule = "seeded configurations carrying 0-5 (every seventh: 10-24, mostly of one step) injected defects drawn from {missing parameter, missing service, service cycle, parameter cycle, scope conflict, grammar error, token error} (several of one class allowed), each run with the four combinations of --ignore-missing-params / --ignore-missing-services; filter law: the ordered diagnostics under flags F equal the diagnostics without flags minus those of the ignored steps (steps identified by the report structure), exit 0 iff nothing remains, ignored steps are marked `ignored`, and a configuration accepted without flags yields byte-identical output under every combination; other spellings of the same flag values (=false, =true, =0/1/t/f, repeated flags) act like the plain ones. distinct = distinct configuration; non-trivial = at least one defect of an ignorable class and one of another class, or accepted without flags"
 	c.Assumptions = []string{"report structure (step END lines with counts) identifies which step a diagnostic belongs to"}
 	w := c.W
-	n := c.Pick(700, 20000)
+	n := c.Pick(700, 10000)
 	combos := [][]string{{}, {"--ignore-missing-params"}, {"--ignore-missing-services"}, {"--ignore-missing-params", "--ignore-missing-services"}}
 	type cse struct {
 		yaml  string
